@@ -475,7 +475,8 @@ PROPS = {
         "modules": ["XetProps.C11", "XetProps.C11Manager"],
         "theorems": ["Xet.Dedup.C11_recorded", "Xet.Dedup.C11_recorded_always", "Xet.Dedup.C11_chunks_recorded",
                      "Xet.Shard.C11_lookup_complete", "Xet.Shard.C11_lookup_complete_register", "Xet.Shard.C11_flush_finds",
-                     "Xet.Shard.C11_flush_mem_empty"],
+                     "Xet.Shard.C11_flush_mem_empty",
+                     "Xet.Dedup.C11_defrag_warmup", "Xet.Dedup.C11_defrag_long_run_accepted", "Xet.Dedup.C11_defrag_short_run_rejected"],
         "suites": ["session", "manager", "session_conc"],
         "level_text": "For every history, legal or not: every xorb handed to the store (cut mid-file or from the session aggregator, incl. the final "
                       "one) has its CAS info registered with the session shard, and every chunk of it is in that info. Lookup completeness of ShardFileManager "
@@ -483,7 +484,9 @@ PROPS = {
                       "index cap is found in every later state (n >= 1, the block and position named, truthful), and after add_cas_block + flush "
                       "every chunk of the block is found - under explicit side conditions, each shown necessary by an example. The end-to-end "
                       "half (a later session re-uploading the content transfers no new chunk bytes) composes these through the real session code "
-                      "and is checked on real multi-session stores (partial: that composition is a monitor, not a theorem).",
+                      "and is checked on real multi-session stores (partial: that composition is a monitor, not a theorem). The one way the code stores "
+                      "a FOUND run again, fragmentation prevention, is delimited by theorems: nothing is rejected before 128 ranges were recorded, a run of "
+                      ">= 8 chunks is never rejected, a short run after 128 one-chunk ranges is (the recorded finding of C11).",
         "design_ref": "DESIGN.md section 4, C01..C11",
         "technique": "Lean 4 proof + differential correspondence / monitor on real multi-session stores",
         "rule": "as C01; about half of the later sessions re-upload earlier files unchanged and must report new_bytes = 0",
